@@ -67,6 +67,7 @@ func (aux *Aux) Call(gf slip.Object, s *slip.Scope, args slip.List, depth int) s
 	meth := aux.cache[key]
 	if meth == nil {
 		if meth = aux.buildCacheMeth(args); meth != nil {
+			verifYield("generic.call.cache-miss")
 			aux.cache[key] = meth
 		}
 	}
